@@ -10,15 +10,23 @@
 (*                       not: InvImpl -- Disjoint before a step implies        *)
 (*                       non-interference of the step -- is an invariant: the  *)
 (*                       discipline is what buys the property.                 *)
+(* Variant "anycopyto"    only CopyTo may use ANY regions (Copy / Unpack follow *)
+(*                        the discipline): InvImpl.                            *)
 (* Variants "shallowcopy" (Copy shares its first region with the source),      *)
 (*          "aliasunpack" (the first region of an unpacked object is the       *)
 (*                         buffer's),                                          *)
 (*          "dirtyro"     (the read-only operation Sign writes into its        *)
-(*                         argument): InvNI MUST FAIL -- the driver requires   *)
-(*                         the violation (non-vacuity).                        *)
+(*                         argument),                                          *)
+(*          "reusecopyto" (CopyTo puts the copy into the regions the target    *)
+(*                         already has, shared with the source or not):        *)
+(*                        InvNI MUST FAIL -- the driver requires the violation *)
+(*                        (non-vacuity).                                       *)
+(* The caller's Alias (a shallow copy sharing a non-empty set of slots) and    *)
+(* CopyTo into any live object are part of every variant.                      *)
 EXTENDS Heap
 
-CONSTANTS Variant, NSlots, MaxDepth
+CONSTANTS Variant, NSlots, MaxDepth,
+          Ext        \* TRUE: with the caller's Alias and CopyTo into live objects
 
 VARIABLES S, last, nextc, depth
 
@@ -34,14 +42,15 @@ Init ==
           mem   |-> [r \in 1..(NSlots + 1) |-> r],
           bk    |-> [o \in Obj |-> 0],
           live  |-> {1},
-          buf   |-> NSlots + 1]
+          buf   |-> NSlots + 1,
+          al    |-> {}]
   /\ last = [op |-> "init"]
   /\ nextc = NSlots + 2
   /\ depth = 0
 
 Step(opname, p, T) ==
   /\ S' = T
-  /\ last' = [op |-> opname, p |-> p, pre |-> S, tgt |-> Targets(opname, p)]
+  /\ last' = [op |-> opname, p |-> p, pre |-> S, tgt |-> Targets(S, opname, p)]
   /\ depth' = depth + 1
 
 CopyChoices(x) ==
@@ -68,8 +77,29 @@ DoUnpack == Obj \ S.live # {} /\ \E ns \in UnpackChoices :
             /\ (Variant \in {"ok", "dirtyro"} => UnpackDisc(S, p))
             /\ Step("unpack", p, UnpackPost(S, p)) /\ UNCHANGED nextc
 
+\* the caller's shallow copy: any non-empty set of slots shared
+DoAlias == \E x \in S.live : Obj \ S.live # {} /\ \E ks \in (SUBSET (1..Len(S.slots[x]))) \ {{}} :
+            LET f == FreshSeq(S, Len(S.slots[x]))
+                p == [x |-> x, y |-> NextObj(S), ns |-> [i \in 1..Len(f) |-> IF i \in ks THEN S.slots[x][i] ELSE f[i]]] IN
+            /\ AliasShape(S, p) /\ AliasDisc(S, p)
+            /\ Step("alias", p, AliasPost(S, p)) /\ UNCHANGED nextc
+
+\* new regions, or the target's own once more (slot by slot; the discipline decides which of these are admissible)
+CopyToChoices(x, t) ==
+  LET k == Len(S.slots[x])  f == FreshSeq(S, k) IN
+  CASE Variant \in {"any", "anycopyto"} -> [1..k -> Allocated(S) \cup Range(f)]
+    [] Variant = "reusecopyto" -> { IF Len(S.slots[t]) = k THEN S.slots[t] ELSE f }
+    [] OTHER                   -> IF Len(S.slots[t]) = k THEN { [i \in 1..k |-> IF i \in ks THEN S.slots[t][i] ELSE f[i]] : ks \in SUBSET (1..k) } ELSE { f }
+
+DoCopyTo == \E x \in S.live, t \in S.live : x # t /\ \E ns \in CopyToChoices(x, t) :
+            LET p == [x |-> x, t |-> t, ns |-> ns] IN
+            /\ CopyToShape(S, p)
+            /\ (Variant \in {"ok", "dirtyro"} => CopyToDisc(S, p))
+            /\ Step("copyto", p, CopyToPost(S, p)) /\ UNCHANGED nextc
+
 DoMutate == \E x \in S.live : \E i \in 1..Len(S.slots[x]) :
-            LET p == [x |-> x, r |-> S.slots[x][i], c |-> nextc, b |-> S.bk[x]] IN
+            LET r == S.slots[x][i]
+                p == [x |-> x, r |-> r, c |-> nextc, b |-> S.bk[x], pb |-> [o \in Sharers(S, x, r) |-> S.bk[o]]] IN
             /\ MutateShape(S, p)
             /\ Step("mutate", p, MutatePost(S, p)) /\ nextc' = nextc + 1
 
@@ -77,7 +107,7 @@ DoScribble == LET p == [c |-> nextc] IN
             /\ ScribbleShape(S, p)
             /\ Step("scribble", p, ScribblePost(S, p)) /\ nextc' = nextc + 1
 
-DoRO == \E op \in ROOps : \E xs \in { q \in SUBSET S.live : Cardinality(q) \in 1..2 } : \E nb \in [xs -> 0..1] :
+DoRO == \E op \in ROOps : \E xs \in { q \in SUBSET S.live : Cardinality(q) \in 1..2 } : \E nb \in [ROArgs(S, xs) -> 0..1] :
             LET p == [op |-> op, xs |-> xs, nb |-> nb]
                 T == ROPost(S, p)
                 x == CHOOSE o \in xs : TRUE
@@ -90,16 +120,32 @@ DoNewBuf == LET p == [r |-> MaxReg(S) + 1, c |-> nextc] IN
             /\ NewBufShape(S, p) /\ NewBufDisc(S, p)
             /\ Step("newbuf", p, NewBufPost(S, p)) /\ nextc' = nextc + 1
 
-Next == depth < MaxDepth /\ (DoCopy \/ DoUnpack \/ DoMutate \/ DoScribble \/ DoRO \/ DoNewBuf)
+Next == depth < MaxDepth /\ (DoCopy \/ DoUnpack \/ DoMutate \/ DoScribble \/ DoRO \/ DoNewBuf \/ (Ext /\ (DoAlias \/ DoCopyTo)))
 
 -----------------------------------------------------------------------------
 InvDisjoint == Disjoint(S)
 InvNI       == last.op # "init" => NonInterf(last.pre, S, last.tgt)
-InvImpl     == last.op # "init" /\ Disjoint(last.pre) => NonInterf(last.pre, S, last.tgt)
-InvCopyEq   == last.op = "copy" => Value(S, last.p.y) = Value(last.pre, last.p.x)
+\* (CopyTo writes the regions it is given: its own discipline is part of the premise)
+InvImpl     == last.op # "init" /\ Disjoint(last.pre) /\ (last.op = "copyto" => CopyToDisc(last.pre, last.p))
+                 => NonInterf(last.pre, S, last.tgt)
+InvCopyEq   == /\ last.op \in {"copy", "alias"} => Value(S, last.p.y) = Value(last.pre, last.p.x)
+               /\ last.op = "copyto" => Value(S, last.p.t) = Value(last.pre, last.p.x)
+\* after CopyTo the target shares nothing with its source -- whatever it shared before -- nor with any object that was
+\* not its partner, and is not the source's partner
+InvCopyTo   == last.op = "copyto" =>
+                 LET t == last.p.t  x == last.p.x IN
+                 /\ Regions(S, x) \cap Regions(S, t) = {} /\ ~Aliased(S, x, t)
+                 /\ \A o \in S.live \ {t} : ~Aliased(last.pre, o, t) => Regions(S, o) \cap Regions(S, t) = {} /\ ~Aliased(S, o, t)
+                 /\ S.buf \notin Regions(S, t)
+                 /\ Value(S, x) = Value(last.pre, x)
+\* al says who shares: objects that share a region are partners (the converse need not hold after a CopyTo of a third)
+InvAl       == \A a, b \in S.live : a # b /\ Regions(S, a) \cap Regions(S, b) # {} => Aliased(S, a, b)
 InvMutate   == last.op = "mutate" => Value(S, last.p.x) # Value(last.pre, last.p.x)    \* a mutation is observable in its target
-InvRO       == last.op = "ro" => OnlyBk(last.pre, S, last.p.xs)
+InvRO       == last.op = "ro" => OnlyBk(last.pre, S, ROArgs(last.pre, last.p.xs))
 \* non-vacuity witnesses: each must be VIOLATED when checked alone (driver: thorough tier)
 WitnessThreeObjects == Cardinality(S.live) < Cardinality(Obj)
 WitnessBookkeeping  == \A o \in Obj : S.bk[o] = 0
+\* a CopyTo into a target that shares memory with its source; a Mutate seen through a partner
+WitnessCopyToAliased == ~(last.op = "copyto" /\ Aliased(last.pre, last.p.x, last.p.t))
+WitnessSharedWrite   == ~(last.op = "mutate" /\ Cardinality(last.tgt) > 1)
 =============================================================================
